@@ -787,6 +787,11 @@ def m_abs(it, v):
 
 
 def m_round(it, v, n=None):
+    if isinstance(v, SymObject):
+        m = getattr(v, 'm___round__', None)
+        if m is None:
+            raise RaiseEx(TypeError(f'type {v.py_type.__name__} doesn\'t define __round__ method'))
+        return m(it, n)
     if is_sym(v) or is_sym(n):
         raise Unsupported('round() on symbolic value (banker\'s rounding not modelled)')
     if not is_prim(v):
